@@ -7,11 +7,12 @@ statement for statement, on top of `OsmoVerif.Model.Trxd`.  The tags and the hea
 The capture file is a byte list with a cursor (`File`), with the semantics of `io.BytesIO` / a binary
 file object: `read(n)` returns what is left (possibly fewer than n octets, nothing when the cursor is
 at or past the end) and advances the cursor by what it returned; `seek(0)`, `seek(n, 1)` (may move
-past the end); `write(b)` writes at the cursor (zero filling a gap, overwriting what is there).
+past the end), `seek(0, 2)` (to the end); `write(b)` writes at the cursor (zero filling a gap,
+overwriting what is there).
 
 API (namespace `OsmoVerif.TrxdDump`)
   Msg                          a message object: `.tx TxMsg` | `.rx RxMsg`
-  File, File.read/seek0/seekCur/write
+  File, File.read/seek0/seekCur/seekEnd/write
   dumpMsg m                    `DATADump.dump_msg(msg)`                        : Except Exc Bytes
   parseHdr hdr                 `DATADump.parse_hdr(hdr)`; `none` = `False`     : Except Exc (Option (Kind × Nat))
   seek2msg f idx               `_seek2msg(idx)`                                : Except Exc (Bool × File)
@@ -83,6 +84,8 @@ def read (f : File) (n : Nat) : Bytes × File :=
 def seek0 (f : File) : File := { f with pos := 0 }
 /-- `f.seek(n, 1)` -/
 def seekCur (f : File) (n : Nat) : File := { f with pos := f.pos + n }
+/-- `f.seek(0, 2)` -/
+def seekEnd (f : File) : File := { f with pos := f.data.length }
 /-- `f.write(b)` -/
 def write (f : File) (b : Bytes) : File :=
   { data := f.data.take f.pos ++ List.replicate (f.pos - f.data.length) 0 ++ b ++ f.data.drop (f.pos + b.length),
@@ -200,8 +203,9 @@ def parseAll (f : File) (skip count : Option Nat) : Except Exc (Option (List Msg
   let (res, f) ← parseLoop count f []
   return (some res, f)
 
-/-- `append_msg(msg)` -/
+/-- `append_msg(msg)`: seek to the end, generate the record, write it -/
 def appendMsg (f : File) (m : Msg) : Except Exc File := do
+  let f := f.seekEnd
   let raw ← dumpMsg m
   pure (f.write raw)
 
